@@ -93,6 +93,17 @@ def enclosing_guards(fi, holder):
                     for a in p["arms"]:
                         if nxt is a:
                             out.append(("arm", p["scrut"], a))
+                elif p["k"] == "Block":
+                    # early exits that precede the region in the same block: `if c { return / continue / break }` => !c holds afterwards
+                    for st in p["stmts"]:
+                        if st is nxt or st.get("expr") is nxt or st.get("init") is nxt:
+                            break
+                        e = st.get("expr") if st["k"] in ("Expr", "ExprStmt", "Semi") else st
+                        if e is not None and e.get("k") == "If" and "else" not in e and e["then"].get("stmts"):
+                            last = e["then"]["stmts"][-1]
+                            le = last.get("expr", last)
+                            if le.get("k") in ("Return", "Continue", "Break"):
+                                out.append(("if", e["cond"], False))
             return out
     return []
 
